@@ -132,6 +132,18 @@ pub fn run(ctx: &Ctx) -> i32 {
             check_case(ctx, st, tcs, Settings::new(f | extra[i / look.len()]));
         });
     }
+    // periods nested 3-5 levels deep around every metacharacter
+    {
+        let metas = gen::alphabet("meta");
+        par_for(&ctx.run, metas.len() * 3 * 2, |i, st| {
+            let mut rng = Rng::new(seed, 0x12_0000 + i as u64);
+            let m = metas[i % metas.len()].clone();
+            let depth = 3 + (i / metas.len()) % 3;
+            let t = gen::nested_periods(&mut rng, &[m.clone(), "a".to_string(), m, "b".to_string()], depth);
+            st.count("deeply_nested_periods");
+            check_case(ctx, st, &[t], Settings::new(if i < metas.len() * 3 { REP } else { REP | ESC | CAP }));
+        });
+    }
     // 3. structured random families over adversarial alphabets x random lattice points
     let n = if ctx.thorough { 400_000 } else { 24_000 };
     let alphabets: Vec<(String, Vec<String>)> = gen::ALPHABETS.iter().map(|a| (a.to_string(), gen::alphabet(a))).collect();
